@@ -18,6 +18,15 @@ LBL_Z3 = Label("3", bytes(3))
 LBL_BC = Label("B")
 LBL_RU = Label("U")
 LABELS = [LBL_A6, LBL_B6, LBL_A3, LBL_B3, LBL_BC, LBL_RU]
+# labels that differ from LBL_A6 / LBL_A3 in a single byte, share a prefix with them, or are nearly zero
+LBL_A6_LAST = Label("6", b"abcdeg")
+LBL_A6_FIRST = Label("6", b"bbcdef")
+LBL_6_NEARZERO = Label("6", bytes(5) + b"\x01")
+LBL_6_ZEROTAIL = Label("6", b"\x01" + bytes(5))
+LBL_A3_LAST = Label("3", b"xyy")
+LBL_3_ABC = Label("3", b"abc")          # prefix of LBL_A6
+LBL_3_NEARZERO = Label("3", b"\x00\x00\x01")
+TRICKY_LABELS = [LBL_A6_LAST, LBL_A6_FIRST, LBL_6_NEARZERO, LBL_6_ZEROTAIL, LBL_A3_LAST, LBL_3_ABC, LBL_Z3, LBL_3_NEARZERO]
 
 
 class Session:
@@ -365,7 +374,7 @@ def suite_transfer(rng, tier, n_sessions=None, with_ext=False):
     n_sessions = n_sessions or (250 if tier == "quick" else 6000)
     for n in range(n_sessions):
         s = Session("xfer%d" % n)
-        slots = rng.choice([1, 2, 2, 3, 4, 8])
+        slots = rng.choice([1, 2, 2, 3, 4, 8]) if rng.random() < 0.97 else rng.choice([255, 256, 257, 300])
         npdu = rng.randrange(1, 6)
         lens = [pick_pdu_len(rng, tier, big_ok=(tier != "quick" or rng.random() < 0.15)) for _ in range(npdu)]
         maxpdu = max(1, max(lens))
@@ -388,8 +397,9 @@ def suite_transfer(rng, tier, n_sessions=None, with_ext=False):
         for k in range(npdu):
             pdu = bs_gen(n * 16 + k + 1, lens[k])
             fid = rng.randrange(256)
-            label = rng.choice([LBL_A6, LBL_A6, LBL_B6, LBL_A3, LBL_B3, LBL_BC, LBL_RU])
-            pt = rng.choice([0x0800, 0x0800, 0x86DD, 0x0600, 0xFFFF])
+            label = rng.choice([LBL_A6, LBL_A6, LBL_B6, LBL_A3, LBL_B3, LBL_BC, LBL_RU] + ([rng.choice(TRICKY_LABELS)] * 2))
+            fid = rng.choice([fid, fid, 0, 255, slots, slots - 1 if slots else 0]) % 256
+            pt = rng.choice([0x0800, 0x0800, 0x86DD, 0x0600, 0x0601, 0xFFFF, 0xFFFE])
             exts = None
             if with_ext:
                 exts, pt = pick_exts(rng, pt)
@@ -406,6 +416,9 @@ def suite_transfer(rng, tier, n_sessions=None, with_ext=False):
             def on_packet(j, s=s):
                 s.peek_if("p:%d" % s.ops[j]["reg"], of=j)
                 s.decap_if("p:%d" % s.ops[j]["reg"], of=j)
+                if rng.random() < 0.05:          # a frame boundary in the middle of a fragment train
+                    s.enc("reset")
+                    s.dec_reset()
             if not done:
                 continue_pdu(s, rng, pdu, s.ops[i]["reg"], lens[k] - first, big=lens[k] > 3000, on_packet=on_packet)
             s.prov(maxpdu, 0xEE)
